@@ -12,7 +12,10 @@ FUNCTIONS = ['uxarray.grid.connectivity._build_edge_face_connectivity',
     'uxarray.io._mpas._parse_face_edges@primal',
     'uxarray.io._mpas._parse_face_edges@dual',
     'uxarray.io._mpas._parse_edge_nodes@primal',
-    'uxarray.io._mpas._parse_edge_nodes@dual']
+    'uxarray.io._mpas._parse_edge_nodes@dual',
+    'uxarray.grid.connectivity._populate_edge_face_connectivity',
+    'uxarray.grid.connectivity._populate_node_face_connectivity',
+    'uxarray.grid.connectivity._populate_face_face_connectivity']
 STANDINS = ["incidence"]
 ASSUMPTIONS = []
 EXPLANATION = "builders under contract + bounded stand-in"
